@@ -67,6 +67,12 @@ class Join(Box):
         super().__post_init__()
         assert not self.ast or self.sep == self.ast.sep, self.sep
 
+    def missing_rules(self, rulenames: set[str]) -> set[str]:
+        return super().missing_rules(rulenames) | self.sep.missing_rules(rulenames)
+
+    def _used_rule_names(self):
+        return super()._used_rule_names() | self.sep._used_rule_names()
+
     def _parse(self, ctx: Ctx) -> Any:
         return self._do_parse(ctx, self.exp._parse, self.sep._parse)
 
